@@ -271,6 +271,14 @@ def gen(seed, tier, index):
             if op is None: continue
             op["checked"] = True
             d = op.get("defect", "none")
+            if op.get("f") in ("C_CreateObject", "C_GenerateKey", "C_GenerateKeyPair", "C_UnwrapKey", "C_DeriveKey", "C_CopyObject") and r.random() < 0.3:
+                # the object the failing call would have made is marked non-destroyable (or non-modifiable / non-copyable): the call's own clean-up has to
+                # remove it all the same
+                gate = A_bool(r.choice([K.CKA_DESTROYABLE, K.CKA_DESTROYABLE, K.CKA_MODIFIABLE, K.CKA_COPYABLE]), False)
+                for key_ in ("tmpl", "pub", "priv"):
+                    if isinstance(op.get(key_), list) and not any(e[0] == gate[0] for e in op[key_]) and (key_ != "priv" or r.random() < 0.5):
+                        op[key_].insert(r.randint(0, len(op[key_])), gate)
+                op["gate_false"] = K.name("CKA", gate[0])
             g.emit(op, ok=(d == "none"))
         g.snap(tag="post")
     g.emit({"act": "restart"}); g.relogin_all()
